@@ -74,27 +74,28 @@ inductive QnOut where
   | val (qn : Nat)
 deriving Repr, DecidableEq
 
+/-- binary exponent of a/b (a, b > 0): the `e` with 2^e ≤ a/b < 2^(e+1) -/
+def binExp (a b : Nat) : Int :=
+  let e0 : Int := (bitLen a : Int) - (bitLen b : Int)
+  let ge : Bool := if e0 ≥ 0 then a ≥ b * 2 ^ e0.toNat else a * 2 ^ (-e0).toNat ≥ b
+  if ge then e0 else e0 - 1
+
 /-- ⌊float64(a/b)⌋ for a, b > 0, where float64 rounds a/b to 53 significant
     bits, ties to even. `none` when the binary exponent leaves the normal range. -/
 def floorFloat (a b : Nat) : Option Nat :=
   if a = 0 then some 0 else
-  -- e with 2^e ≤ a/b < 2^(e+1), as an Int
-  let la : Int := bitLen a
-  let lb : Int := bitLen b
-  let e0 : Int := la - lb
-  -- a/b ≥ 2^e0 ?
-  let ge : Bool := if e0 ≥ 0 then a ≥ b * 2 ^ e0.toNat else a * 2 ^ (-e0).toNat ≥ b
-  let e : Int := if ge then e0 else e0 - 1
+  let e := binExp a b
   if e < -1022 ∨ e > 1023 then none else
-  -- significand q = round(a/b · 2^(52-e)) ∈ [2^52, 2^53]
+  -- significand q = round(a/b · 2^(52-e)) ∈ [2^52, 2^53]; value = q · 2^(e-52)
   let sh : Int := 52 - e
-  let q := if sh ≥ 0 then divRoundEven (a * 2 ^ sh.toNat) b else divRoundEven a (b * 2 ^ (-sh).toNat)
-  -- value = q · 2^(e-52)
-  some (if sh ≥ 0 then q / 2 ^ sh.toNat else q * 2 ^ (-sh).toNat)
+  if sh ≥ 0 then some (divRoundEven (a * 2 ^ sh.toNat) b / 2 ^ sh.toNat)
+  else some (divRoundEven a (b * 2 ^ (-sh).toNat) * 2 ^ (-sh).toNat)
 
-/-- `calQn(vrfValueRatio, stakeRatio)`; v ≥ 0. -/
-def calQn (P : Params) (v s : Frac) : QnOut :=
-  let s : Frac := if (s.den : Int) < s.num then ⟨1, 1⟩ else s
+/-- `if stakeRatio.Cmp(rat1) > 0 { stakeRatio.Set(rat1) }` -/
+def capRatio (s : Frac) : Frac := if (s.den : Int) < s.num then ⟨1, 1⟩ else s
+
+/-- `calQn` after the cap; v ≥ 0. -/
+def calQnCore (P : Params) (v s : Frac) : QnOut :=
   if P.maxQN = 0 then .panic
   else if s.num = 0 then .panic
   else
@@ -114,6 +115,9 @@ def calQn (P : Params) (v s : Frac) : QnOut :=
       match floorFloat rn rdAbs with
       | none => .undefined
       | some fl => if fl = 0 then .val 0 else .undefined
+
+/-- `calQn(vrfValueRatio, stakeRatio)`. -/
+def calQn (P : Params) (v s : Frac) : QnOut := calQnCore P v (capRatio s)
 
 inductive VOut where
   | noStake                       -- totalStake = 0: (false, 0)
